@@ -784,6 +784,75 @@ fn confirm_garbage(run: &Run) {
     }
 }
 
+/// Supplement, *sampling* (labelled so in the evidence): a node validates for several callers at once (mempool and block, two
+/// chains).  One thread applies batches of faucets that each list a covenant nobody has seen before (1,500 distinct covenants;
+/// thorough 6,000) while a second thread keeps applying single transactions to another chain and a third one seals blocks;
+/// nothing may panic and every one of these valid transactions is accepted.  The interleaving is free-running.
+fn concurrent_callers_sampling(run: &Run, thorough: bool) {
+    use std::sync::atomic::{AtomicBool, AtomicU64, Ordering};
+    let per_batch = 300usize;
+    let batches = if thorough { 20 } else { 5 };
+    let done = AtomicBool::new(false);
+    let applied = AtomicU64::new(0);
+    let problems: parking_lot::Mutex<Vec<(String, String)>> = parking_lot::Mutex::new(vec![]);
+    let w_a = world_mel(NetID::Custom02, 1_000_000, 0);
+    let w_b = world_mel(NetID::Custom03, 1_000_000, 0);
+    let w_c = world_mel(NetID::Custom04, 1_000_000, 0);
+    let note = |who: &str, r: Result<Result<(), melstf::StateError>, crate::guard::PanicInfo>| match r {
+        Ok(Ok(())) => {
+            applied.fetch_add(1, Ordering::Relaxed);
+        }
+        Ok(Err(e)) => problems.lock().push((format!("{}/rejected", who), e.to_string())),
+        Err(p) => problems.lock().push((format!("{}/{}", who, p.class()), p.msg)),
+    };
+    std::thread::scope(|s| {
+        s.spawn(|| {
+            let mut st = w_a.genesis.clone().seal(None).next_unsealed();
+            for b in 0..batches {
+                let txs: Vec<Transaction> = (0..per_batch)
+                    .map(|i| {
+                        let k = (b * per_batch + i) as u64;
+                        mktx(TxKind::Faucet, vec![], vec![out_t(1, Denom::Mel)], 0, vec![Covenant::from_ops(&[OpCode::PushI(k.into()), OpCode::PushI(1u8.into())]).to_bytes()], k.to_be_bytes().to_vec())
+                    })
+                    .collect();
+                note("batches-of-new-covenants", guard(|| st.apply_tx_batch(&txs)));
+            }
+            done.store(true, Ordering::Release);
+        });
+        s.spawn(|| {
+            let base = w_b.genesis.clone().seal(None).next_unsealed();
+            let mut k = 0u64;
+            while !done.load(Ordering::Acquire) {
+                let mut st = base.clone();
+                let t = mktx(TxKind::Normal, vec![CoinID::zero_zero()], vec![out_t(1_000_000, Denom::Mel)], 0, vec![cov_true().to_bytes(), Covenant::from_ops(&[OpCode::PushI((1_000_000 + k).into())]).to_bytes()], k.to_be_bytes().to_vec());
+                note("single-transactions-on-another-chain", guard(|| st.apply_tx(&t)));
+                k += 1;
+            }
+        });
+        s.spawn(|| {
+            let mut sealed = w_c.genesis.clone().seal(None);
+            while !done.load(Ordering::Acquire) {
+                match guard(|| sealed.next_unsealed().seal(Some(action_dest(2)))) {
+                    Ok(n) => sealed = n,
+                    Err(p) => {
+                        problems.lock().push((format!("sealing-on-a-third-chain/{}", p.class()), p.msg));
+                        break;
+                    }
+                }
+            }
+        });
+    });
+    let n = applied.load(Ordering::Relaxed);
+    run.transitions_add(n);
+    run.validated_add(n);
+    let problems = problems.into_inner();
+    run.set("concurrent_callers", json!({"kind": "sampling of schedules (free-running threads), not exhaustive", "distinct_covenants_in_batches": per_batch * batches, "applications_accepted": n, "problems": problems.len()}));
+    run.outcome(if problems.is_empty() { "concurrent-callers:nothing-panicked" } else { "concurrent-callers:problems" });
+    if let Some((class, msg)) = problems.first() {
+        run.violation("C09", format!("concurrent-callers/{}", class), format!("while one thread applied batches of faucets listing {} covenants never seen before, another applied single transactions to a second chain and a third sealed blocks on a third chain: {} ({} problem(s) in all)", per_batch * batches, msg, problems.len()), json!({"threads": 3, "distinct_covenants": per_batch * batches}));
+    }
+}
+
 pub fn run(run: &'static Run) {
     let thorough = run.thorough();
     start_watchdog(run, Duration::from_secs(if thorough { 60 } else { 30 }));
@@ -805,6 +874,7 @@ pub fn run(run: &'static Run) {
         run.cap_hit("a node restarted far into the chain does not come back (reported above); the in-process exploration, which visits such heights too, is not run");
         return;
     }
+    concurrent_callers_sampling(run, thorough);
     let deltas: Vec<i8> = if thorough { vec![-128, -127, -1, 0, 1, 127] } else { vec![-128, 127] };
     let mut bases = base_states(thorough);
     let g = genesis_open_node();
